@@ -131,19 +131,26 @@ def contains_tree(in_tree: DerivationTree, tree: DerivationTree) -> bool:
     """
 
     def embedded(sub_tree: DerivationTree, at: DerivationTree) -> bool:
-        if sub_tree.children is None:
-            return sub_tree.value == at.value
+        # Iterative, since trees can be very deep.
+        stack = [(sub_tree, at)]
+        while stack:
+            sub_tree, at = stack.pop()
+            if sub_tree.children is None:
+                if sub_tree.value != at.value:
+                    return False
+                continue
 
-        return (
-            sub_tree.id == at.id
-            and sub_tree.value == at.value
-            and at.children is not None
-            and len(sub_tree.children) == len(at.children)
-            and all(
-                embedded(child, at_child)
-                for child, at_child in zip(sub_tree.children, at.children)
-            )
-        )
+            if (
+                sub_tree.id != at.id
+                or sub_tree.value != at.value
+                or at.children is None
+                or len(sub_tree.children) != len(at.children)
+            ):
+                return False
+
+            stack.extend(zip(sub_tree.children, at.children))
+
+        return True
 
     path = in_tree.find_node(tree)
     return path is not None and embedded(tree, in_tree.get_subtree(path))
